@@ -227,8 +227,9 @@ def configs(quick):
     out = []
     h1 = [[c] for c in CALLS]
     h2 = [list(p) for p in itertools.product(CALLS, repeat=2)]
+    sel3 = [["normal", "oneway", "normal"], ["raiser", "normal", "stream"], ["oneway", "oneway", "normal"], ["stream", "normal", "raiser"]]
     if quick:
-        h3 = [["normal", "oneway", "normal"], ["raiser", "normal", "stream"], ["oneway", "oneway", "normal"], ["stream", "normal", "raiser"]]
+        h3 = sel3
     else:
         h3 = [list(p) for p in itertools.product(["normal", "raiser", "oneway", "stream"], repeat=3)]
     for h in h1 + h2 + h3:
@@ -241,14 +242,19 @@ def configs(quick):
                         continue
                     if len(h) == 2 and retries == 1 and h[0] in ("batch", "attr"):
                         continue
-                p = 2 if len(h) <= 2 else (1 if quick else 2)
+                else:
+                    if len(h) == 3 and (seq0 or retries == 2):
+                        continue
+                p = 2 if len(h) <= 2 else (2 if (not quick and h in sel3 and retries == 0) else 1)
                 if quick and len(h) == 2 and (retries or any(k in ("batch", "attr") for k in h)):
                     p = 1
-                out.append({"history": h, "retries": retries, "seq0": seq0, "server": "multiplex", "p": p, "r": 3, "all_cuts": not quick, "horizon": 4000})
+                out.append({"history": h, "retries": retries, "seq0": seq0, "server": "multiplex", "p": p, "r": 3 if quick or len(h) < 3 else 2, "all_cuts": not quick, "horizon": 4000})
     # the thread-pool server: more threads, smaller budgets
-    for h in h1 + ([] if quick else h2):
+    for h in h1 + ([] if quick else [x for x in h2 if not any(k in ("batch", "attr") for k in x)]):
         for retries in ((0, 1) if quick else (0, 1, 2)):
-            out.append({"history": h, "retries": retries, "seq0": 0, "server": "thread", "p": 1 if quick else 2, "r": 2, "all_cuts": False, "horizon": 4000})
+            if not quick and len(h) == 2 and retries == 2:
+                continue
+            out.append({"history": h, "retries": retries, "seq0": 0, "server": "thread", "p": 1 if (quick or len(h) == 2) else 2, "r": 2, "all_cuts": False, "horizon": 4000})
     return out
 
 
